@@ -25,6 +25,17 @@ def featuresOf : FlagArg → Except Features.Err Bool
   | .absent => Features.fromStr (Features.display false)
   | .given v => Features.fromStr v
 
+/-- The option can be written before the subcommand (`lace -f stack run x.asm`: the top-level
+`run_options` of `Args`) and after it (the subcommand's own `run_options`); each occurrence goes
+through the value parser, and — after the fix that stopped the top-level one from being silently
+dropped when a subcommand follows — `main` initialises the features with their union
+(`features.union(global_features)`). -/
+def featuresOf2 (global loc : FlagArg) : Except Features.Err Bool :=
+  match featuresOf global, featuresOf loc with
+  | .ok g, .ok l => .ok (l || g)
+  | .error e, _ => .error e
+  | _, .error e => .error e
+
 inductive FlagCmd where
   | check | compile | run
 
@@ -51,11 +62,12 @@ def lastIsOpD : List Word → Bool
   | [x] => Run.isOpD x
   | _ :: xs => lastIsOpD xs
 
-/-- One `lace` process on the source `src` stored as `name`; `compile` writes to `dest` (absent
+/-- One `lace` process on the source `src` stored as `name`, the option given before (`global`)
+and / or after (`loc`) the subcommand; `compile` writes to `dest` (absent
 before); `run` is given `--minimal` and `inp` on stdin. -/
-def laceFlag (cmd : FlagCmd) (fa : FlagArg) (fuel : Nat) (name dest : List Char) (src : List Char)
+def laceFlag (cmd : FlagCmd) (global loc : FlagArg) (fuel : Nat) (name dest : List Char) (src : List Char)
     (inp : List Nat) : FlagProc :=
-  match featuresOf fa with
+  match featuresOf2 global loc with
   | .error _ => .finished { status := 2, out := [], image := none, named := false }
   | .ok flag =>
     let target (n : List Char) := "target ".toList ++ n
